@@ -119,6 +119,49 @@ def rule_r3(facts, col):
                             "on how the input was chunked (and every later sample is misaligned)" % show(b.b)[:30], {})
 
 
+WRITE_BUF_Q = "stream::WriteStream::write_buf"
+
+
+def _wb_of(e):
+    for x in walk(e):
+        if x.k == "call" and x.q == WRITE_BUF_Q and getattr(x, "bb", None) is not None:
+            return x.bb
+    return None
+
+
+def rule_r4(facts, col):
+    """what is committed was written: every produce(n) with a possibly non-zero n is reachable from (and, outside loops,
+    dominated by) a write access to the same write window (slice()/fill_from_*())"""
+    for body in facts.impl_bodies(BLOCK_TRAIT, "work"):
+        writes = {}
+        for bb, t in body.calls():
+            q = t["f"].get("q") or ""
+            if q.startswith("circular_buffer::BufferWriter::") and t["f"].get("name") in ("slice", "fill_from_slice", "fill_from_iter"):
+                w = _wb_of(body.operand_expr(t["args"][0]))
+                if w is not None:
+                    writes.setdefault(w, []).append(bb)
+        k = 0
+        for bb, t in body.calls_to(effects.PRODUCE):
+            w = _wb_of(body.operand_expr(t["args"][0]))
+            n = peel(body.operand_expr(t["args"][1]), through_try=False)
+            key = "%s:produce#%d" % (body.q, k)
+            k += 1
+            if n.k == "const" and n.v == 0:
+                continue
+            if w is None:
+                col.silent("C08.R4", key, body.where(bb), "window origin not visible")
+                continue
+            ws = writes.get(w, [])
+            if any(body.dominates(x, bb) for x in ws):
+                col.ok("C08.R4", key, body.where(bb), "commit dominated by a write into the same window")
+            elif any(bb in body.reachable(x) for x in ws):
+                col.ok("C08.R4", key, body.where(bb), "commit reachable from a write into the same window (write in a loop)")
+            else:
+                col.bad("C08.R4", key, body.where(bb),
+                        "produce() commits samples of a write window that work() never wrote into on any path to this commit: the "
+                        "reader is handed whatever the ring held before (stale samples of an earlier lap)", {})
+
+
 def run(ctx):
     facts = ctx.facts("default")
     fam = ctx.facts("family")
@@ -126,6 +169,8 @@ def run(ctx):
     c19.rule_work(facts, ctx, only={"C08.R1"})
     rule_r2(facts, ctx)
     rule_r3(facts, ctx)
+    rule_r4(facts, ctx)
+    ctx.floor("C08.R4", 40, "produce sites of the crate's work() bodies")
     ctx.floor("C08.R3", 2, "AuDecode (2 bytes/sample) and FirFilter (decimation)")
     ctx.floor("C08.R1", 54 * 4, "4 loop-shape obligations x (36 family + 18 in-crate sync blocks)")
     ctx.floor("C08.R2", 4, "fill_from_slice / copy_from_slice into write windows (Delay, VectorSource, Skip, FftStream, ...)")
